@@ -365,9 +365,9 @@ func firstLine(s string) string {
 
 func init() {
 	mc.Register(&mc.Check{
-		Prop: "C04",
-		Rule: "every (function-value kind x lifetime) and every (producer-form set x consumer parameter shape x lifetimes) configuration is built on the real container, the consumer and the whole identity universe (14 types x 3 keys, 14 types x 2 groups) are resolved; an outcome is the canonical observation string of one configuration (distinct = different strings)",
-		Assume: []string{"reference registry model in props/model.go (written from the documentation)", "constructors are reflect.MakeFunc / handwritten functions that record their own invocation"},
+		Prop:        "C04",
+		Rule:        "every (function-value kind x lifetime) and every (producer-form set x consumer parameter shape x lifetimes) configuration is built on the real container, the consumer and the whole identity universe (14 types x 3 keys, 14 types x 2 groups) are resolved; an outcome is the canonical observation string of one configuration (distinct = different strings)",
+		Assume:      []string{"reference registry model in props/model.go (written from the documentation)", "constructors are reflect.MakeFunc / handwritten functions that record their own invocation"},
 		MinOutcomes: 10,
 		Jobs: func(tier string) []mc.Job {
 			return []mc.Job{
